@@ -209,6 +209,52 @@ def groupLegal (lam : Nat) (al : Alarms) (read : Nat) (blocks : List Nat) : Bool
   || al.any fun e => decide ((todOf read + usPerDay - e.1) % usPerDay < lam)
                       && sortDedup blocks == sortDedup e.2
 
+/-! ## the alarm table as cron maintains it (`add_block` / `remove_block`)
+
+Reference for the tie by translation (EdzedProofs/CronTie.lean, `TrTie.translated_cron_…` in EdzedProps/C07.lean):
+`Cron._alarms` as a finite map from times of day (µs) to the registered blocks; a key never holds an empty set. -/
+
+/-- `none` = no such key -/
+abbrev Table := Nat → Option (List Nat)
+
+def Table.isKey (tb : Table) (t : Nat) : Bool := (tb t).isSome
+
+/-- is `blk.recalc` called at time of day `t`? -/
+def Table.registered (tb : Table) (t b : Nat) : Bool :=
+  match tb t with
+  | some s => s.contains b
+  | none => false
+
+/-- `add_block(t, b)`: the block joins the set of `t` (a new key gets the singleton) -/
+def Table.add (tb : Table) (t b : Nat) : Table := fun t' =>
+  if t' = t then
+    some (match tb t with
+          | some s => if s.contains b then s else b :: s
+          | none => [b])
+  else tb t'
+
+/-- `remove_block(t, b)`: nothing without the key; otherwise the block leaves the set and an empty set takes
+    its key along -/
+def Table.remove (tb : Table) (t b : Nat) : Table :=
+  match tb t with
+  | none => tb
+  | some s => fun t' =>
+    if t' = t then (if (s.filter (· != b)).isEmpty then none else some (s.filter (· != b))) else tb t'
+
+/-- the times of day that are in cron's timetable anyway (`_SET24`: the 24 full hours) -/
+def hourly (t : Nat) : Bool := t % 3600000000 == 0 && decide (t < usPerDay)
+
+/-- does `add_block` / `remove_block` ask for a reload of the timetable?  Exactly when a NON-hourly key
+    appears or disappears -/
+def Table.addNeedsReload (tb : Table) (t : Nat) : Bool := !tb.isKey t && !hourly t
+def Table.removeNeedsReload (tb : Table) (t b : Nat) : Bool :=
+  match tb t with
+  | none => false
+  | some s => (s.filter (· != b)).isEmpty && !hourly t
+
+/-- no key holds an empty set -/
+def Table.NoEmpty (tb : Table) : Prop := ∀ t, tb t ≠ some []
+
 /-! ## trace acceptance -/
 
 inductive Rec where
